@@ -234,6 +234,7 @@ def run(ck):
 
     narrowing_len_sweep(ck, crate("rs", "concordium_base"), re.compile(r"concordium_base::bulletproofs::"), re.compile(r"verify[a-z_0-9]*(::\{closure#\d+\})*$"))
 
+    geometric_weight_sweep(ck, crate("rs", "concordium_base"), re.compile(r"concordium_base::bulletproofs::"), floor=5)
     eq_polarity_sweep(ck, crate("rs", "concordium_base"), re.compile(r"concordium_base::bulletproofs::"), re.compile(r"verify[a-z_0-9]*(::\{closure#\d+\})*$"))
     rejecting_checks_floor(ck, crate("rs", "concordium_base"), re.compile(r"concordium_base::bulletproofs::"), re.compile(r"(verify|verifier|validate|check|extract_commit_message)[a-z_0-9]*(::\{closure#\d+\})*$"), "C11")
 
